@@ -159,3 +159,10 @@ package js_ast
 //@   opt frame-only
 //@   opt frame-forbid js_ast_
 //@   modifies nothing
+
+// ----------------------------------------------------------------------------------------------
+// C14 (F6): the minifier and the linker may *introduce* newer syntax only under a test that the target
+// supports it. Each site below must be dominated by a branch that establishes !Has(feature).
+//@ gate optional-chain C14: feature=compat.OptionalChain ; site=call TryToInsertOptionalChain ; in=js_ast,js_parser,js_printer,linker ; except=TryToInsertOptionalChain:recursion inside the helper (its callers are the gated sites)
+//@ gate nullish-coalescing C14: feature=compat.NullishCoalescing ; site=call JoinWithLeftAssociativeOp arg0=js_ast.BinOpNullishCoalescing ; in=js_ast,js_parser,js_printer,linker ; except=(*binaryExprVisitor).visitRightAndFinish:re-associates an existing ?? expression (a ?? (b ?? c)) and introduces no new operator
+//@ gate linker-arrow C14: feature=compat.Arrow ; site=alloc EArrow ; in=linker
